@@ -42,6 +42,12 @@ pub fn run(
     let mut iterations: u64 = 1; // number of times we call underlying search
 
     while accepted.len() < query.k {
+        #[cfg(feature = "verif_hooks")]
+        crate::verif::emit(crate::verif::Event::KspOuter {
+            algorithm: "yens",
+            accepted: accepted.len(),
+            k: query.k,
+        });
         if termination.terminate_search(query.k, accepted.len()) {
             break;
         }
@@ -59,6 +65,11 @@ pub fn run(
 
         // step through each index along the most recently-accepted path
         for spur_idx in 0..prev_accepted_path.len() - 2 {
+            #[cfg(feature = "verif_hooks")]
+            crate::verif::emit(crate::verif::Event::KspInner {
+                algorithm: "yens",
+                index: spur_idx,
+            });
             let spur_len: usize = spur_idx + 1;
             let mut cut_edges: HashSet<EdgeId> = HashSet::new();
             let root_path = prev_accepted_path.iter().take(spur_len).collect_vec();
